@@ -10,7 +10,7 @@ through that table by the model's own `findLineIdx` (`Layout.sl`, `Layout.el`), 
 `LinX Y cfg k nd ts` — `ts` renders the expression node `nd` at precedence level `k` (`cfg` = the parser's `AsVarAssign`): operators,
                       assignments, member / index chains, `其 p`, calls with 得到, 新建, method-call chains, list and dictionary
                       literals, a `，` after an operand — with the `line` fields the parser stores (the line of the operator token,
-                      of the leaf token, of the opening `{ （ 【 以`).  `LinE Y k e ts` is `LinX Y true k (.expr e) ts`.
+                      of the leaf token, of the opening `{ （ 【 以`, of the `#` of an index, of the member NAME of `x 之 p` / `其 p`).  `LinE Y k e ts` is `LinX Y true k (.expr e) ts`.
 `LinSimple Y s ts`  — `ts` renders the simple statement `s` (expression, `以 x（m）…`, `令 … 设为 …`, 输出, 抛出, 结束循环, 继续循环): one run of
                       glued tokens.
 `LinN Y d nd ts`    — `ts` renders the node `nd` (a statement, the statements of a block — `；` included —, the 再如/否则 tail of a 如果,
@@ -194,13 +194,13 @@ inductive LinX (Y : Layout) : Bool → Nat → ENode → List Token → Prop
   /-- an operand followed by a single `，` (the comma is swallowed when the parser looks for what continues the operand) -/
   | commaAfter {cfg : Bool} (c : Token) (e : Expr) (ts : List Token) :
       c.type = cTypeCommaSep → LinX Y cfg 7 (.expr e) ts → LinX Y cfg 6 (.expr e) (ts ++ [c])
-  /-- `其 p` (no line is stored) -/
+  /-- `其 p`: on the line of the member-name token `p` -/
   | this {cfg : Bool} (kw p : Token) : kw.type = cTypeObjThisW → p.type = cTypeIdentifier →
-      LinX Y cfg 7 (.expr (.member 0 cRootTypeProp .nil cMemberID (some (Y.idOf p)) .nil)) [kw, p]
-  /-- `x 之 p` (no line is stored) -/
+      LinX Y cfg 7 (.expr (.member (Y.sl p) cRootTypeProp .nil cMemberID (some (Y.idOf p)) .nil)) [kw, p]
+  /-- `x 之 p`: on the line of the member-name token `p` (not of the `之`) -/
   | dot {cfg : Bool} (d p : Token) (r : Expr) (tr : List Token) :
       d.type ∈ [cTypeObjDotW, cTypeObjDotIIW] → p.type = cTypeIdentifier → LinX Y cfg 7 (.expr r) tr →
-      LinX Y cfg 7 (.expr (.member 0 cRootTypeExpr r cMemberID (some (Y.idOf p)) .nil)) (tr ++ [d, p])
+      LinX Y cfg 7 (.expr (.member (Y.sl p) cRootTypeExpr r cMemberID (some (Y.idOf p)) .nil)) (tr ++ [d, p])
   /-- `x # i`, `i` an identifier (a number) -/
   | idxId {cfg : Bool} (h i : Token) (r : Expr) (tr : List Token) :
       h.type = cTypeMapHash → i.type = cTypeIdentifier → LinX Y cfg 7 (.expr r) tr →
